@@ -22,7 +22,7 @@ KANI_NOTE = "Kani 0.68/CBMC 6.11 (cadical) and its Rust model, dev-profile seman
 CHECKS = {
     "C03": ("bounded model checking (Kani/CBMC) of the real FriVerifier and the provided channel methods over a harness channel, ideal (injective) model hasher, F17",
             "The remainder, the commitment digest, the queried position and the adaptively chosen evaluation are solver variables; 'verify accepts => hash(remainder) == commitment' "
-            "and 'read_layer_queries returns exactly the committed rows or LayerCommitmentMismatch' are assertions over all of them. 0-layer FRI (4-coefficient remainder), 2 queried rows.",
+            "and 'read_layer_queries returns exactly the committed rows or LayerCommitmentMismatch' are assertions over all of them. 0-layer FRI (4-coefficient and 1-coefficient remainders), 2 queried rows.",
             KANI_NOTE + "; ideal hasher = lazily sampled injective function (collision resistance as an assumption); ideal vector commitment for layer openings; STARK trace/constraint rows only through C19's single-opening binding",
             "DESIGN.md section 4 C03"),
     "C05": ("bounded model checking (Kani/CBMC) of every component decoder on symbolic byte strings and of the size computations on decoded integers",
@@ -37,12 +37,14 @@ CHECKS = {
             "DESIGN.md section 4 C07"),
     "C08": ("bounded model checking (Kani/CBMC): index arithmetic of prover layout vs. verifier lookup on symbolic data; remainder path of the real FriVerifier over F17",
             "transpose_slice / fold_positions / map_positions_to_indexes agree for all evaluation vectors and position pairs (domain 16, folding 2 and 4, 1/2/4 partitions); the 0-layer verifier accepts "
-            "every polynomial of degree <= 3 committed by its reversed coefficients at any two positions.",
-            KANI_NOTE + "; the folding algebra (apply_drp vs. row interpolation), >= 1 FRI layers, real fields, serialization of FRI proofs are outside",
+            "every polynomial of degree <= 3 committed by its reversed coefficients at any two positions; degree bounds 0 and 1 (domains of 2 and 4 points). Thorough tier only (20-60 min each, not part of the quick claim): ONE folding layer through the real verifier (domain 8 -> 4, honest transcript "
+            "of every polynomial of degree <= 3 and every alpha accepted); apply_drp (folding 2 / 4) equals folding in coefficient form for all polynomials and alphas.",
+            KANI_NOTE + "; the FRI prover itself (build_layers, query) is not executed: the honest transcript is written in the harness from the definition; >= 2 layers, real fields, serialization of FRI proofs are outside",
             "DESIGN.md section 4 C08"),
     "C09": ("bounded model checking (Kani/CBMC) of each rejection branch of the real FriVerifier (F17, 0-layer configuration, ideal hasher)",
-            "Substituted remainder (including the adaptive one), evaluation mismatch, over-long remainder, understated degree bound and position/evaluation length mismatch are each rejected for all symbolic data.",
-            KANI_NOTE + "; 'far from low degree' is probabilistic and outside; layer-opening rejection through the ideal vector commitment is under C03",
+            "Substituted remainder (including the adaptive one), evaluation mismatch, over-long remainder, understated degree bound, a bound whose successor is not a power of two, a missing remainder commitment and position/evaluation length mismatch are each rejected for all symbolic data; "
+            "thorough tier only: with ONE folding layer (domain 8 -> 4) and arbitrary committed row values, claimed evaluation, remainder and alpha: verify accepts <=> the claimed evaluation is the opened row entry and the row's interpolant at alpha equals the remainder at the folded point.",
+            KANI_NOTE + "; 'far from low degree' is probabilistic and outside; layer-opening rejection through the ideal vector commitment is under C03; >= 2 layers outside",
             "DESIGN.md section 4 C09"),
     "C10": ("MIR-to-SMT symbolic execution (mirsym: z3 integer encoding with explicit mod 2^k, product refinement, second-solver cross-check) of the f64/f62/f128 kernels + Kani for the multiplication-free operations",
             "Inductive step per operation: from an arbitrary in-invariant internal representation the operation does not panic, returns an in-invariant value and satisfies its congruence "
@@ -79,7 +81,8 @@ CHECKS = {
             "and the digest position (words 4..8) equal the documented construction; number of permutation calls exact. MDS: for all 32-bit halves mds_multiply_freq has no i64 overflow and equals the published circulant matrix "
             "product over the integers (12x12 and 8x8); mds_multiply returns in-invariant elements congruent to the matrix rows for all states.",
             KANI_NOTE + "; the permutation's round function (S-box x^7, inverse S-box exponent chain, round constants) is NOT symbolically covered: 64-bit modular exponentiation chains are outside both engines; "
-            "mirsym: z3 integer encoding, second opinion z3 4.8.12 + cvc5; Rp62_248 / RpJive64_256 sponge code not instantiated",
+            "mirsym: z3 integer encoding, second opinion z3 4.8.12 + cvc5 (capped per label class for the 12-row obligations); RpJive64_256 (sponge on 0/1/3/4/5 elements and 1/7/8 bytes, Jive merge / merge_with_int) is instantiated the same way; "
+            "Rp62_248 is not (its permutation is a private function that cannot be stubbed)",
             "DESIGN.md section 9.8 C16"),
     "C17": ("bounded model checking (Kani/CBMC): pairwise difference of the inputs presented to the (stubbed) permutation / blake3 primitive for an input and its zero-extension",
             "For symbolic x the primitive inputs of hash(x) and hash(x||0..0) (1v2, 6v7, 7v8, 7v14 bytes; 1v2 and 7v8 elements) differ for every x; merge_with_int(seed, v) and (seed, v + p) differ for every v; "
